@@ -194,7 +194,8 @@ def perm_jumps_job(params):
             prove('... with the same origin and destination', conj([conj([res[1][k][0] == res[3][k][0], res[1][k][1] == res[3][k][1]]) for k in res[1]]))
         sample(dict(T=T, mode=mode, jumps=len(res[0])))
 
-    return symbolic_job(params, body, perm_jumps_replay)
+    sp = params.get('split')
+    return symbolic_job(params, body, perm_jumps_replay, split=tuple(sp) if sp else None)
 
 
 def perm_jumps_replay(params, inputs):
@@ -391,7 +392,10 @@ def jobs(tier, seed):
     for lat, r, k in rd:
         js.append(dict(name=f'rotation_diffusivity_{lat}_k{k}', fn='rot_diffusivity_job', params=dict(lattice=lat, rotated=r, k=k)))
     for T, mode, m in pj:
-        js.append(dict(name=f'perm_atoms_jumps_T{T}_{mode}_m{m}', fn='perm_jumps_job', params=dict(T=T, mode=mode, m=m)))
+        depth = 5 if (T >= 4 and mode == 'inner') or T >= 5 else 0   # ~10^5 paths of pandas code: split over the first free decisions
+        for i in range(2 ** depth):
+            js.append(dict(name=f'perm_atoms_jumps_T{T}_{mode}_m{m}' + (f'_part{i}of{2 ** depth}' if depth else ''), fn='perm_jumps_job',
+                           params=dict(T=T, mode=mode, m=m, split=[i, depth] if depth else None)))
     for k, n in pm:
         js.append(dict(name=f'perm_sites_matrix_k{k}_n{n}', fn='perm_matrix_job', params=dict(k=k, n=n)))
     for T, mode, m, perm in ([(4, 'default', 0, [1, 0, 2]), (4, 'inner', 1, [2, 0, 1])] if tier == 'quick' else
